@@ -71,6 +71,7 @@ pub fn is_enabled() -> bool {
     }
 }
 
+#[cfg(not(rustyyato_chess_verif))]
 thread_local! {
     static LOCAL_ENABLED: Cell<LocalFlag> = const { Cell::new(LocalFlag::Global) };
 }
@@ -86,3 +87,62 @@ impl<T: tracing::Subscriber> tracing_subscriber::Layer<T> for GlobalEnable {
         is_enabled()
     }
 }
+
+/// Verification hook (compiled only with `--cfg rustyyato_chess_verif`): the per-thread slot is
+/// replaced by one of two slots selected by the checker, so that two threads can be
+/// sequentialised by a model checker that has no threads. All functions above run unmodified.
+#[cfg(rustyyato_chess_verif)]
+pub mod verif {
+    use super::LocalFlag;
+    use std::cell::Cell;
+
+    pub struct Slots {
+        slots: [Cell<LocalFlag>; 2],
+        cur: Cell<usize>,
+    }
+    // the checker is single-threaded
+    unsafe impl Sync for Slots {}
+
+    impl Slots {
+        pub(super) const fn new() -> Self {
+            Self {
+                slots: [Cell::new(LocalFlag::Global), Cell::new(LocalFlag::Global)],
+                cur: Cell::new(0),
+            }
+        }
+
+        pub(super) fn with<R>(&self, f: impl FnOnce(&Cell<LocalFlag>) -> R) -> R {
+            f(&self.slots[self.cur.get()])
+        }
+    }
+
+    /// select the thread (0 or 1) on whose behalf the next calls run
+    pub fn set_current_thread(thread: usize) {
+        super::LOCAL_ENABLED.cur.set(thread);
+    }
+
+    /// the override of `thread`: 0 = none (inherit the global flag), 1 = enabled, 2 = disabled
+    pub fn local_flag(thread: usize) -> u8 {
+        match super::LOCAL_ENABLED.slots[thread].get() {
+            LocalFlag::Global => 0,
+            LocalFlag::Enabled => 1,
+            LocalFlag::Disabled => 2,
+        }
+    }
+
+    pub fn global_flag() -> bool {
+        super::IS_ENABLED.load(std::sync::atomic::Ordering::Acquire)
+    }
+
+    /// the override saved in a `LocalEnableState`, encoded as in `local_flag`
+    pub fn saved_flag(state: &super::LocalEnableState) -> u8 {
+        match state.flag {
+            LocalFlag::Global => 0,
+            LocalFlag::Enabled => 1,
+            LocalFlag::Disabled => 2,
+        }
+    }
+}
+
+#[cfg(rustyyato_chess_verif)]
+static LOCAL_ENABLED: verif::Slots = verif::Slots::new();
